@@ -22,6 +22,7 @@ def check(ctx):
     r2010_degenerate(ctx)
     r2011_regions(ctx)
     r2014_fitted_checks(ctx)
+    r2015_correlation_remover(ctx)
 
 
 def _is_ccl(e, a, b):
@@ -506,3 +507,32 @@ def r2014_fitted_checks(ctx):
                    f"{cls.split(':')[1]}.{m} reads fitted attribute '{first.data['attr'] if first else '?'}' on a path without a "
                    "preceding check_is_fitted(self)", construct=f"{cls.split(':')[1]}.{m} fitted-check")
     ctx.floor("R20.14", "predict-type methods inspected", n, 9)
+
+
+def r2015_correlation_remover(ctx):
+    ctx.rule("R20.15", "CorrelationRemover.fit rejects sensitive feature ids that are not columns of X before doing any work: "
+                       "the missing-column test ranges over all configured ids and a non-empty result raises")
+    A = Analysis(ctx)
+    cls = M_CR + ":CorrelationRemover"
+    r = A.run(cls + ".fit", cls_ctx=cls)
+    chk = [e for e in r.events if e.kind == "call" and e.data.get("callee") == cls + "._check_sensitive_features_in_X"]
+    work = [e for e in r.events if e.kind == "call" and e.data.get("callee") in (cls + "._split_X", "numpy.linalg.lstsq")]
+    ok = len(chk) == 1 and arg(chk[0], 0) is r.params["X"] and not chk[0].pc and all(chk[0].seq < w.seq for w in work) and bool(work)
+    ctx.ob("R20.15", r.func, chk[0].node if chk else None, ok, "the missing-column check is the first, unconditional step of fit",
+           construct="CorrelationRemover check first")
+    rc = A.run(cls + "._check_sensitive_features_in_X", cls_ctx=cls)
+    X = rc.params["X"]
+    raises = [e for e in rc.events if e.kind == "raise" and e.func == rc.func]
+    ok = len(raises) == 1
+    if ok:
+        e = raises[0]
+        lit = A.C.canon(e.pc[-1])
+        miss_df = A.entry(rc, "[c for c in self.sensitive_feature_ids if c not in X.columns]")
+        ok = lit.op == "cmp" and lit.args[0] == "<" and lit.args[1] is const(0) and lit.args[2].op == "fn" and lit.args[2].args[0] == "len"
+        if ok:
+            m = lit.args[2].args[1]
+            ok = contains(m, lambda s: s is A.C.canon(miss_df))
+            # ndarray branch: ids not in range(n columns)
+            ok = ok and contains(m, lambda s: s.op == "comp" and contains(s, lambda q: q.op == "fn" and q.args[0] == "range"))
+    ctx.ob("R20.15", rc.func, raises[0].node if raises else None, ok, "ids missing from X.columns (or outside range(n_columns) "
+           "for arrays) raise", construct="CorrelationRemover missing columns")
